@@ -231,20 +231,22 @@ structure Node (π σ : Type) where
   Quiescent : σ → Prop
 
 /-- what the network needs of a node: its invariant is kept, and each kind of local transition changes the held packets
-in the one way its label says.  `emit`/`discard` say in particular that the packet that leaves is one the node holds —
-**the very same record** that was handed in (`IdPreserving` below): no local step may change it. -/
+in the one way its label says: a packet that is accepted is held afterwards; a held packet that is emitted or discarded is
+held no longer (once); nothing else changes what is held. -/
 structure NodeLaw {π σ : Type} (nd : Node π σ) : Prop where
   recv_acc : ∀ s p s', nd.Inv s → nd.step s (.recv p .acc) s' → nd.Inv s' ∧ (nd.heldOf s').Perm (nd.heldOf s ++ [p])
   recv_ref : ∀ s p r s', nd.Inv s → nd.step s (.recv p (.ref r)) s' → nd.Inv s' ∧ (nd.heldOf s').Perm (nd.heldOf s)
-  emit : ∀ s p s', nd.Inv s → nd.step s (.emit p) s' → nd.Inv s' ∧ (nd.heldOf s).Perm (p :: nd.heldOf s')
-  discard : ∀ s p r s', nd.Inv s → nd.step s (.discard p r) s' → nd.Inv s' ∧ (nd.heldOf s).Perm (p :: nd.heldOf s')
+  emit : ∀ s p s', nd.Inv s → nd.step s (.emit p) s' → p ∈ nd.heldOf s →
+    nd.Inv s' ∧ (nd.heldOf s).Perm (p :: nd.heldOf s')
+  discard : ∀ s p r s', nd.Inv s → nd.step s (.discard p r) s' → p ∈ nd.heldOf s →
+    nd.Inv s' ∧ (nd.heldOf s).Perm (p :: nd.heldOf s')
   make : ∀ s p c s', nd.Inv s → nd.step s (.make p c) s' →
     nd.Inv s' ∧ p ∈ nd.heldOf s ∧ (nd.heldOf s').Perm (nd.heldOf s ++ [c])
   tau : ∀ s s', nd.Inv s → nd.step s .tau s' → nd.Inv s' ∧ (nd.heldOf s').Perm (nd.heldOf s)
   drained : ∀ s, nd.Inv s → nd.Quiescent s → nd.heldOf s = []
 
 /-- the assumption on local steps behind "forwarded as the very same packet": what a node emits or discards is a record it
-holds (it was handed in, or made here, as exactly this record) -/
+holds — it was handed in (or made here) as exactly this record, and no local step has changed any of its fields -/
 def IdPreserving {π σ : Type} (nd : Node π σ) : Prop :=
   ∀ s p s', nd.Inv s → (nd.step s (.emit p) s' ∨ ∃ r, nd.step s (.discard p r) s') → p ∈ nd.heldOf s
 
